@@ -26,7 +26,7 @@ PURE_METHODS = {
     "copy", "join", "startswith", "endswith", "count", "index", "expanduser", "resolve", "groups",
 }
 PURE_DOTTED = {
-    "os.path.join", "math.ceil", "itertools.product", "itertools.count", "os.path.split", "re.findall",
+    "os.path.join", "math.ceil", "itertools.product", "itertools.count", "os.path.split", "os.path.dirname", "os.path.basename", "re.findall",
     "itertools.chain.from_iterable", "np.iscomplexobj", "os.path.relpath", "os.environ.get",
     "os.path.expanduser",
 }
